@@ -57,6 +57,24 @@ class Mover(System):
             m.trace.append(("pos", a.id, a[PositionComponent].xyz()))
 
 
+class Wanderer(System):
+    """grid worlds: every agent asks for its neighbouring cells, shuffles the list it was handed (with the model's generator) and
+    steps onto the first one - the usual random walk on a lattice"""
+    def execute(self):
+        m = self.model
+        env = m.environment
+        if not isinstance(env, GridWorld):
+            return
+        for a in list(env)[:6]:
+            pc = a[PositionComponent]
+            here = (int(pc.x), int(pc.y), 0)
+            cells = env.get_moore_neighbours(here, 1, False, tuple) if len(m.trace) % 2 else env.get_neumann_neighbours(here, 1, True, tuple)
+            m.random.shuffle(cells)
+            cells.sort(key=lambda c: (c[0] + c[1]) % 2)        # ... and orders it by a criterion of its own (stable: ties keep the shuffled order)
+            env.move_to(a, cells[0][0], cells[0][1])
+            m.trace.append(("walk", a.id, tuple(cells[0])))
+
+
 class Picker(System):
     def __init__(self, id, model, mode, **kw):
         super().__init__(id, model, **kw)
@@ -174,9 +192,15 @@ DONORS = [0]
 
 class TrajModel(Model):
     def __init__(self, seed, cfg, perturb=None):
-        super().__init__(seed=seed)
         if isinstance(cfg, str):
             cfg = json.loads(cfg)
+        if cfg.get("seed_after"):
+            # the model is built without a seed and its generator seeded afterwards through the random.Random protocol
+            # (model.random.seed(s)): from then on the trajectory is a function of s
+            super().__init__()
+            self.random.seed(seed)
+        else:
+            super().__init__(seed=seed)
         self.trace = [("seed", str(seed))]
         self.births = 0
         world = cfg.get("world", "plain")
@@ -210,7 +234,9 @@ class TrajModel(Model):
         self.systems.add_system(Tracer("tracer", self, priority=50))
         for k, kind in enumerate(kinds[:6]):
             sid = f"{kind}{k}"
-            if kind == "mover":
+            if kind == "wanderer":
+                self.systems.add_system(Wanderer(sid, self, priority=10 - k))
+            elif kind == "mover":
                 if world != "plain":
                     self.systems.add_system(Mover(sid, self, priority=10 - k))
             elif kind in ("picker", "picker_t", "picker_tag", "picker_both"):
@@ -253,6 +279,9 @@ def run_plain(seed, cfg, steps, perturb=None, interleave=None):
         if interleave:
             o = TrajModel(interleave[t % len(interleave)], cfg)
             others.append(o)
+            u = Model()                 # ... and an unseeded model that draws from its own generator
+            u.random.random()
+            u.random.shuffle([1, 2, 3])
             for x in others[-3:]:
                 x.execute()
                 x.environment.shuffle()
@@ -376,11 +405,11 @@ def run_hashseed(case):
 def strategy(tier):
     from hypothesis import strategies as st
     seeds = wone_of(st.sampled_from([0, 1, -1, 2 ** 64 + 3, -2 ** 70, 2 ** 64, 2 ** 100 + 7]), st.integers(-10 ** 6, 10 ** 6), st.integers(-2 ** 80, 2 ** 80))
-    kinds = st.lists(st.sampled_from(["mover", "picker", "picker", "picker_t", "picker_tag", "picker_both", "shuffler", "shuffler",
+    kinds = st.lists(st.sampled_from(["mover", "wanderer", "picker", "picker", "picker_t", "picker_tag", "picker_both", "shuffler", "shuffler",
                                       "shuffler_t", "shuffler_tag", "shuffler_both", "birthdeath"]), min_size=1, max_size=5)
     cfg = st.fixed_dictionaries({"world": st.sampled_from(["plain", "grid", "space"]), "wrap": st.booleans(), "pop": st.integers(3, 12),
                                  "systems": kinds, "steps": st.integers(5, 15),
-                                 "donor_world": st.sampled_from([False, False, False, False, True]),
+                                 "donor_world": st.sampled_from([False, False, False, False, True]), "seed_after": st.sampled_from([False, False, False, True]),
                                  "complete_at": st.sampled_from([None, None, None, 2, 4, 7])})
     from vf.fixtures import near_pow2
     crowd = st.fixed_dictionaries({"world": st.sampled_from(["plain", "grid", "space"]), "wrap": st.booleans(), "pop": near_pow2(33, 130),
